@@ -1110,3 +1110,21 @@ mod tests {
         ));
     }
 }
+
+#[cfg(litep2p_verif)]
+impl MemoryStore {
+    /// All stored records, including expired ones not yet purged (verification hook).
+    pub fn verif_records(&self) -> Vec<Record> {
+        self.records.values().cloned().collect()
+    }
+
+    /// All stored provider records per key, in stored order (verification hook).
+    pub fn verif_providers(&self) -> Vec<(Key, Vec<ProviderRecord>)> {
+        self.provider_keys.iter().map(|(k, v)| (k.clone(), v.clone())).collect()
+    }
+
+    /// Keys with a registered local provider (verification hook).
+    pub fn verif_local_providers(&self) -> Vec<Key> {
+        self.local_providers.keys().cloned().collect()
+    }
+}
